@@ -54,6 +54,7 @@ theorem closed_no_objects (prog : List (Op σ ο)) (hclosed : prog.any Op.usesEx
       | new c arg => cases arg <;> simp_all [Op.extUse, Op.usesExt]
       | setrng c k arg => cases arg <;> simp_all [Op.extUse, Op.usesExt]
       | use c k => simp [Op.usesExt] at hop
+      | copy k => rfl
 
 /-- if no method called by the program reads private state, `hclean` holds from every abstract list -/
 theorem progAll_cleanUse_of_uncached (prog : List (Op σ ο))
@@ -74,6 +75,7 @@ def hStep : Op σ ο → List (RngArg × Bool) → List (RngArg × Bool)
   | .seed _, l => l.map (fun p => (p.1, p.2 && !p.1.isSpawned))
   | .new _ arg, l => l ++ [(arg, true)]
   | .setrng _ k arg, l => l.set k (arg, true)
+  | .copy k, l => l ++ (l[k]?).toList
   | _, l => l
 
 theorem withView_objs' {α : Type} (d : Deps) (f : View σ → α × View σ) (arg : RngArg) (st : St σ)
@@ -137,6 +139,12 @@ theorem step_handles (P : Prim σ) (op : Op σ ο) (st st' : St σ) (o : Out σ 
           rw [List.getElem?_set_self (by simpa using hlt)]
           simp [hk, ObjSt.handle, hal]
         · rw [List.getElem?_set_ne hjk]
+  | copy k =>
+    simp only [step, copyObj, Option.map_eq_some_iff] at hs
+    obtain ⟨r, ⟨ob, hob, rfl⟩, he⟩ := hs
+    simp only [Prod.mk.injEq] at he
+    obtain ⟨_, rfl⟩ := he
+    simp [hStep, List.getElem?_map, hob]
 
 def hRun : List (Op σ ο) → List (RngArg × Bool) → List (RngArg × Bool)
   | [], l => l
@@ -242,17 +250,17 @@ theorem specIsolated_iff {β γ : Type} [DecidableEq β] [DecidableEq γ] (a b :
 /-! ### `spawn`: the loop next to its closed form -/
 
 /-- the python stream after `k` draws -/
-def pyIter (P : Prim σ) : Nat → σ → σ
+def pyIter (P : Prim σ) (bits : Nat) : Nat → σ → σ
   | 0, x => x
-  | k + 1, x => pyIter P k (P.pyDraw x).2
+  | k + 1, x => pyIter P bits k (P.pyDraw bits x).2
 
-theorem spawnGo_closed (P : Prim σ) (n : Nat) (py : σ) :
-    (spawnGo P n py).1 = (List.range n).map (fun k => P.genSeed (P.pyDraw (pyIter P k py)).1)
-      ∧ (spawnGo P n py).2 = pyIter P n py := by
+theorem spawnGo_closed (P : Prim σ) (o : SOpt) (n : Nat) (py : σ) :
+    (spawnGo P o n py).1 = (List.range n).map (fun k => P.genSeed o.bg (P.pyDraw o.bits (pyIter P o.bits k py)).1)
+      ∧ (spawnGo P o n py).2 = pyIter P o.bits n py := by
   induction n generalizing py with
   | zero => exact ⟨rfl, rfl⟩
   | succ k ih =>
-    obtain ⟨h1, h2⟩ := ih (P.pyDraw py).2
+    obtain ⟨h1, h2⟩ := ih (P.pyDraw o.bits py).2
     refine ⟨?_, ?_⟩
     · simp only [spawnGo, h1, List.range_succ_eq_map, List.map_cons, List.map_map]
       rfl
@@ -316,6 +324,50 @@ theorem use_explicit (c : Cls σ ο) (hpy : c.deps.py = false) (hnp : c.deps.np 
         · rw [← hst]; simp [putGen_py]
         · rw [← hst]; simp [putGen_np]
         · rw [← hst]; simp [putGen_os]
+
+/-! ### duplicates of objects -/
+
+/-- everything observable of a method call except the object list: the result and every stream -/
+def useView (r : ο × St σ) : ο × σ × σ × σ × List σ × List σ :=
+  (r.1, r.2.py, r.2.np, r.2.os, r.2.ext, r.2.spawned)
+
+/-- two slots of the object list that hold the same object state (a duplicate and its original, right after
+    the duplication) are indistinguishable to a method call: same result, same effect on every stream -/
+theorem use_same_object (c : Cls σ ο) (j k : Nat) (st : St σ) (h : st.objs[j]? = st.objs[k]?) :
+    (use c j st).map useView = (use c k st).map useView := by
+  unfold use
+  rw [h]
+  cases hk : st.objs[k]? with
+  | none => rfl
+  | some ob =>
+    simp only []
+    cases ob.alive with
+    | false => simp
+    | true =>
+      simp only [if_true, Option.map_map]
+      rfl
+
+theorem copyObj_spec (k : Nat) (st st' : St σ) (h : copyObj k st = some st') :
+    ∃ ob, st.objs[k]? = some ob ∧ st'.objs = st.objs ++ [ob] ∧ st'.py = st.py ∧ st'.np = st.np ∧ st'.os = st.os
+      ∧ st'.ext = st.ext ∧ st'.spawned = st.spawned := by
+  simp only [copyObj, Option.map_eq_some_iff] at h
+  obtain ⟨ob, hob, rfl⟩ := h
+  exact ⟨ob, hob, rfl, rfl, rfl, rfl, rfl, rfl⟩
+
+/-- the Spec side of the static allow-list as a proposition -/
+theorem Site.allowed_iff (allow : List (String × String × String)) (s : Site) :
+    s.allowed allow = true ↔
+      ((s.kind, s.module, "") ∈ allow ∧ s.opScope = true) ∨ (("static", s.module, s.func) ∈ allow) := by
+  simp only [Site.allowed, List.any_eq_true, Bool.and_eq_true, Bool.or_eq_true, beq_iff_eq]
+  constructor
+  · rintro ⟨⟨a1, a2, a3⟩, hmem, hm, h⟩
+    simp only at hm h
+    rcases h with ⟨⟨h1, h2⟩, h3⟩ | ⟨h1, h2⟩
+    · left; subst h1; subst hm; subst h2; exact ⟨hmem, h3⟩
+    · right; subst h1; subst hm; subst h2; exact hmem
+  · rintro (⟨hmem, hs⟩ | hmem)
+    · exact ⟨_, hmem, rfl, Or.inl ⟨⟨rfl, rfl⟩, hs⟩⟩
+    · exact ⟨_, hmem, rfl, Or.inr ⟨rfl, rfl⟩⟩
 
 /-! ### composition of isolated components -/
 
@@ -413,6 +465,12 @@ theorem step_ext_other (P : Prim σ) (j : Nat) (op : Op σ ο) (h : op.touchesEx
       apply withView_ext_other c.ctorDeps c.ctor arg j _ st w.2 w.1 (by simpa using hw)
       intro harg; subst harg; simp [Op.touchesExt] at h
     · cases hr
+  | copy k =>
+    simp only [step, copyObj, Option.map_eq_some_iff] at hs
+    obtain ⟨r, ⟨ob, _, rfl⟩, he⟩ := hs
+    simp only [Prod.mk.injEq] at he
+    obtain ⟨_, rfl⟩ := he
+    rfl
 
 /-- one isolated call on generator `j`, from two states that hold the same generator `j` -/
 theorem step_onExt (P : Prim σ) (j : Nat) (op : Op σ ο) (h : op.onExt j = true) (st1 st2 m1 : St σ)
@@ -424,6 +482,7 @@ theorem step_onExt (P : Prim σ) (j : Nat) (op : Op σ ο) (h : op.onExt j = tru
   | new c arg => simp [Op.onExt] at h
   | use c k => simp [Op.onExt] at h
   | setrng c k arg => simp [Op.onExt] at h
+  | copy k => simp [Op.onExt] at h
   | call c arg =>
     cases arg with
     | glob => simp [Op.onExt] at h
